@@ -98,9 +98,11 @@ def label_too_long(e: tuple) -> bool:
 class Case:
     """One message: mode + per-section entry lists (+ `now` for the remaining-TTL path)."""
 
-    __slots__ = ("flags", "multicast", "id", "q", "an", "au", "ad", "now")
+    __slots__ = ("flags", "multicast", "id", "q", "an", "au", "ad", "now", "big")
 
-    def __init__(self, mode: Tuple[int, bool, int], placed: Sequence[Tuple[tuple, str]], now: float = 0.0) -> None:
+    def __init__(self, mode: Tuple[int, bool, int], placed: Sequence[Tuple[tuple, str]], now: float = 0.0,
+                 big: bool = False) -> None:
+        self.big = big  # holds an entry that does not fit a datagram alone: only size and well-formedness are judged
         self.flags, self.multicast, self.id = mode
         self.q = [e for e, s in placed if s == "q"]
         self.an = [e for e, s in placed if s == "an"]
@@ -110,13 +112,13 @@ class Case:
 
     def as_json(self) -> Dict[str, Any]:
         return {"mode": [self.flags, self.multicast, self.id], "q": self.q, "an": self.an, "au": self.au, "ad": self.ad,
-                "now": self.now}
+                "now": self.now, "big": self.big}
 
     @staticmethod
     def from_json(d: Dict[str, Any]) -> "Case":
         placed = [(tuple(e), s) for s in SECTIONS for e in d[s]]
         m = d["mode"]
-        return Case((m[0], bool(m[1]), m[2]), placed, d.get("now", 0.0))
+        return Case((m[0], bool(m[1]), m[2]), placed, d.get("now", 0.0), bool(d.get("big", False)))
 
 
 CREATED = 1_000_000.0  # creation time of the library records when the remaining-TTL path is used
@@ -175,7 +177,7 @@ def check_case(case: Case, prop: str) -> Tuple[Optional[str], str]:
     c14 = prop == "C14"
     for pi, p in enumerate(packets):
         lastp = pi == len(packets) - 1
-        if c14 and len(p) > MAX_ABS:
+        if (c14 or case.big) and len(p) > MAX_ABS:
             return f"datagram {pi} is {len(p)} bytes (> {MAX_ABS})", "bad"
         try:
             ref = wire.strict_decode(p)
@@ -183,6 +185,8 @@ def check_case(case: Case, prop: str) -> Tuple[Optional[str], str]:
             return f"independent decoder rejects datagram {pi} (corrupt, or header counts != entries present): {e}", "bad"
         secs = [ref.questions, ref.answers, ref.authorities, ref.additionals]
         count = sum(len(s) for s in secs)
+        if case.big:
+            continue
         if c14:
             if len(p) > MAX_TYP and count != 1:
                 return f"datagram {pi} is {len(p)} bytes (> {MAX_TYP}) with {count} entries", "bad"
@@ -200,6 +204,8 @@ def check_case(case: Case, prop: str) -> Tuple[Optional[str], str]:
             ls = incoming_sections(msg)
             for k in range(4):
                 got_lib[k] += [norm(e) for e in ls[k]]
+    if case.big:
+        return None, "ok:oversize-entry"
     if c14:
         def key(secs: List[List[tuple]]) -> List[List[tuple]]:
             return [[(e[0], e[1]) for e in s] for s in secs]
@@ -279,6 +285,18 @@ def boundary_space(tier: str) -> Iterator[Case]:
                        [(txt, "au")], [(txt, "ad")]):
             for m in MODES[:4]:
                 yield Case(m, placed)
+
+
+    # outside the quantifier (an entry that cannot fit 8966 bytes alone): whatever the builder does with it, no datagram
+    # may exceed 8966 bytes or be malformed
+    for total in list(range(MAX_ABS + 1, MAX_ABS + 41)) + [9500, 20000, 65536]:
+        n = total - 12 - len(b"\x01t\x05local\x00") - 10
+        txt = ("TXT", "t.local.", FL, 4500, b"\x07" * n)
+        small = ("A", "h.local.", FL, 120, IP4)
+        for placed in ([(txt, "an")], [(small, "an"), (txt, "an"), (small, "ad")], [(("Q", "t.local.", 16, IN), "q"), (txt, "an")],
+                       [(txt, "au")], [(txt, "ad")]):
+            for m in MODES[:4]:
+                yield Case(m, placed, big=True)
 
 
 def count_space(tier: str) -> Iterator[Case]:
